@@ -295,6 +295,21 @@ def check_C11(tier):
     return verdict(agg, tier, t0, rule, ['NaN/inf values and empty generator labels are outside the documented format and are not generated', 'loading when no window event remains is not specified and not attempted'], min_eval=1000)
 
 
+def check_C16(tier):
+    t0 = time.time()
+    b = compile_bin('kernels', ['checks/kernels.cc'], 'fast')
+    cases = '60000000' if tier == 'thorough' else '8000000'
+    agg = Agg('C16')
+    agg.add(run_native(b, ['--seed', str(seed()), '--cases', cases, '--known', known_tsv('C16')], NCPU, 'C16'))
+    rule = ('cases cycle over 7 kernels: dgmlt1/dgmlt2 on monomials x^k (k<=2NG-1, NG in {6,8}, NI 1..20, random intervals incl. reversed) and nested dgmlt1(dgmlt2) as in dshelp1/2 (1e-13 rel.); '
+            'decay0_gauss on polynomial/exp/offset-sine/gaussian/lorentzian families with analytic integrals, eps 1e-3..1e-8 (|err|<=eps|I|); tsimpr on random polynomials of degree<=3 (1e-12); '
+            'tgold min/max on parabola/gaussian/abs/cos with known extremum (|x-x*|<=eps); divdif on polynomials of degree<=MM over increasing and decreasing irregular tables (1e-10); rotate_zyz vs an '
+            'independent Rz(phi)Ry(theta)Rz(psi), scalar products and determinant; decay0_fermi vs an independent Lanczos complex-Gamma evaluation, Z in +-[1,100], E in [1e-9,10] MeV (1e-9 rel.); '
+            'distinct = (kernel, degree/order/family, interval or parameter class)')
+    return verdict(agg, tier, t0, rule, ['quadrature integrands are restricted to what a non-adaptive 87-point rule can resolve (the claim is for smooth integrands) and to |I| not a small difference',
+                                         'tgold: eps >= 1e-5 of the interval length (below that, function values near a smooth extremum are indistinguishable in double precision)'], min_eval=10000)
+
+
 def check_C08(tier):
     """sanitizer builds (ASan+UBSan+_GLIBCXX_ASSERTIONS) of the generation drivers + structure-aware libFuzzer target"""
     t0 = time.time()
@@ -336,6 +351,9 @@ def replay(prop, path):
     if prop == 'C11':
         b = compile_bin('readercheck', ['checks/readercheck.cc'], 'fast', libs=['-lrapidcheck'])
         return subprocess.run([b, '--replay', path, '--workdir', os.path.join(BUILD, 'run')], env=run_env()).returncode
+    if prop == 'C16':
+        b = compile_bin('kernels', ['checks/kernels.cc'], 'fast')
+        return subprocess.run([b, '--replay', path], env=run_env()).returncode
     if prop == 'C10':
         b = compile_bin('mdlcheck', ['checks/mdlcheck.cc'], 'fast')
         return subprocess.run([b, '--replay', path], env=run_env()).returncode
@@ -348,7 +366,16 @@ def replay(prop, path):
 
 def setup_all():
     """compile everything the quick checks need so that they start fast"""
-    for v in ('fast', 'san'):
+    for v in ('fast', 'san', 'fuzz'):
         vlib.build_variant(v)
+    refd = vlib.build_ref()
     compile_bin('refdiff', ['checks/refdiff.cc'], 'fast', ref=True)
-    compile_bin('gencheck', ['checks/gencheck.cc'], 'fast', inc=[vlib.build_ref()])
+    compile_bin('gridcheck', ['checks/gridcheck.cc'], 'fast', ref=True)
+    compile_bin('gencheck', ['checks/gencheck.cc'], 'fast', inc=[refd])
+    compile_bin('gencheck', ['checks/gencheck.cc'], 'san', inc=[refd])
+    compile_bin('proto', ['checks/proto.cc'], 'fast', libs=['-lrapidcheck', '-rdynamic'])
+    compile_bin('history', ['checks/history.cc'], 'fast', libs=['-lrapidcheck'])
+    compile_bin('readercheck', ['checks/readercheck.cc'], 'fast', libs=['-lrapidcheck'])
+    compile_bin('mdlcheck', ['checks/mdlcheck.cc'], 'fast')
+    compile_bin('kernels', ['checks/kernels.cc'], 'fast')
+    compile_bin('fuzz_shoot', ['fuzz/fuzz_shoot.cc'], 'fuzz', inc=[os.path.join(ROOT, 'fuzz'), refd])
